@@ -51,7 +51,7 @@ def bounds(tier):
 
 GRIDS_Q = [[4], [5], [1], [8], [7], [3, 4], [4, 4], [1, 4], [6, 1], [2, 2, 3], [2, 1, 4], [2, 3, 2], [3, 2, 2]]
 GRIDS_T = [[4], [5], [1], [8], [7], [16], [3, 4], [4, 4], [5, 3], [1, 4], [6, 1], [2, 2, 3], [3, 3, 3], [2, 1, 4], [2, 3, 2], [3, 2, 2], [4, 2, 4], [3, 4, 4]]
-FAMS = ["random", "ongrid", "half", "cluster", "outside", "dense", "shifted"]
+FAMS = ["random", "ongrid", "half", "cluster", "outside", "dense", "shifted", "far"]
 
 
 def gen_cases(tier, seed):
@@ -66,6 +66,9 @@ def gen_cases(tier, seed):
                     if batch and ((osf, w) not in ((1.25, 4), (2, 4)) or fam not in ("random", "half")):
                         continue
                     cases.append(dict(kind="nufft", grid=grid, batch=batch, fam=fam, oversamp=osf, width=w))
+                # single-precision images (coordinates stay double): same accuracy figures
+                if (osf, w) in ((1.25, 4), (2, 4)) and fam in ("random", "far", "outside", "half"):
+                    cases.append(dict(kind="nufft", grid=grid, batch=[], fam=fam, oversamp=osf, width=w, dtype="c64"))
     return cases
 
 
@@ -88,6 +91,11 @@ def make_coords(case, seed):
     if fam == "shifted":
         c = opcat.coords("random", grid, 6, seed, spec, centered=True)
         mult = np.array([[1, -2, 3][d % 3] * n for d, n in enumerate(grid)], dtype=float)
+        return c + mult
+    if fam == "far":
+        # thousands of periods away from the grid: still exactly representable in double precision
+        c = opcat.coords("random", grid, 6, seed, spec, centered=True)
+        mult = np.array([[4096, -65536, 1024][d % 3] * n for d, n in enumerate(grid)], dtype=float)
         return c + mult
     if fam == "outside":
         c = opcat.coords("random", grid, 6, seed, spec, centered=True)
@@ -116,8 +124,9 @@ def measure(case, seed):
     ish = batch + grid
     osh = batch + [coord.shape[0]]
     c0 = coord.copy()
-    M = dense.dense_of(lambda x: sp.nufft(x, coord, oversamp=osf, width=w), ish, osh)
-    MA = dense.dense_of(lambda y: sp.nufft_adjoint(y, coord, ish, oversamp=osf, width=w), osh, ish)
+    cdt = np.complex64 if case.get("dtype") == "c64" else np.complex128
+    M = dense.dense_of(lambda x: sp.nufft(x, coord, oversamp=osf, width=w), ish, osh, dtype=cdt)
+    MA = dense.dense_of(lambda y: sp.nufft_adjoint(y, coord, ish, oversamp=osf, width=w), osh, ish, dtype=cdt)
     err = float(np.linalg.norm(M - E, 2) / np.linalg.norm(E, 2))
     return M, MA, E, err, coord, c0
 
@@ -131,11 +140,16 @@ def run_case(case, seed):
     M, MA, E, err, coord, c0 = measure(case, seed)
     trans = M.shape[1] + MA.shape[1]
     t = tau[(float(osf), float(w))]
+    single = case.get("dtype") == "c64"
+    cdt = np.complex64 if single else np.complex128
+    if single:
+        when += ", complex64 image"
+        t = t + 1e-4
     if not err <= t:
         viol.append(dict(oracle="ndft-accuracy", key=dict(site="fourier.nufft", when=when),
                          detail="||M - E||_2/||E||_2 = %.4g > tau = %.4g (grid %s, %s coordinates)" % (err, t, case["grid"], case["fam"])))
     e2 = dense.relerr(MA, M.conj().T)
-    if not e2 <= 1e-9:
+    if not e2 <= (1e-9 if not single else 1e-5):
         viol.append(dict(oracle="exact-adjoint", key=dict(site="fourier.nufft_adjoint", when=when),
                          detail="max|M(nufft_adjoint) - M(nufft)^H| / max|M| = %.3g" % e2))
     if coord.tobytes() != c0.tobytes():
@@ -144,10 +158,10 @@ def run_case(case, seed):
         grid = case["grid"]
         shift = np.array([[2, -1, 1][d % 3] * n for d, n in enumerate(grid)], dtype=float)
         ish = case["batch"] + grid
-        M2 = dense.dense_of(lambda x: sp.nufft(x, coord + shift, oversamp=osf, width=w), ish, None)
+        M2 = dense.dense_of(lambda x: sp.nufft(x, coord + shift, oversamp=osf, width=w), ish, None, dtype=cdt)
         trans += M2.shape[1]
         e3 = dense.relerr(M2, M)
-        if not e3 <= 1e-8:
+        if not e3 <= (1e-8 if not single else 1e-5):
             viol.append(dict(oracle="periodicity", key=dict(site="fourier.nufft", when=when),
                              detail="coordinates shifted by %s: matrix differs by %.3g" % (shift.tolist(), e3)))
     # Gram clause: nufft_adjoint(nufft(x)) approximates E^H E
